@@ -15,7 +15,7 @@ PROPS = {
         'assumptions': ['block codecs consume their whole input (the counting pass counts bytes the decoder actually reads)'],
     },
     'C08': {
-        'families': [('c08', 40, 300, {'race': True})],
+        'families': [('c08', 80, 300, {'race': True})],
         'rule': 'per scenario one shared instance {blockstore.ReadWrite on a real file, storage.StorageCar on a concurrency-safe in-memory file, DeferredCarWriter for a path} x options; 2-8 goroutines (2-16 thorough) each issuing 10-40 random calls {Put, Has, Get, AllKeysChan drained, GetSize} over a shared block alphabet, built and run under the Go race detector (GORACE log inspected per scenario), with panic recovery and a deadlock timeout; the timestamped invocation/response history is checked for real-time consistency (a block whose Put returned is found by every later Has/Get with exact bytes; nothing is reported that was never put) and the finalized file is decoded (each distinct key once under de-duplication, all successful puts present); distinct = distinct script text (scenario parameters)',
         'trusted': ['Go race detector, runtime scheduler and memory model (the schedules explored are whatever the runtime produces; this run is validation and failing-schedule search, the deciding artefact is the theorem over the extracted lock table)', 'the syntactic lock/field analysis in extract/locks.go'],
         'assumptions': ['OnPut registration is not in the property\'s operation list (it is unsynchronised by design)'],
@@ -138,6 +138,26 @@ def _cid_is_identity(hexs):
     return v == 1 and code == 0
 
 
+def _identity_digest_len(hexs):
+    """digest length of an identity CIDv1, or None"""
+    try:
+        b = bytes.fromhex(hexs)
+        v, i = _uvarint(b, 0)
+        _, i = _uvarint(b, i)
+        code, i = _uvarint(b, i)
+        n, i = _uvarint(b, i)
+        return n if (v == 1 and code == 0) else None
+    except Exception:
+        return None
+
+
+def _getsize_known(script_toks, I, S):
+    """the recorded GetSize finding, exactly: the answer is the identity digest's own length where
+    the reference says not-found / closed. Any other wrong answer is a different violation."""
+    n = _identity_digest_len(script_toks.get('c', ''))
+    return n is not None and I.split()[1:2] == ['r=n:%d' % n] and S.split()[1:2] in (['r=notfound'], ['r=closed'])
+
+
 def signature(pid, script, I, S):
     """Deterministic label of WHAT fails, from structural features of the failing case."""
     fam = script.split(' ', 1)[0]
@@ -159,7 +179,7 @@ def signature(pid, script, I, S):
     if pid == 'C13':
         return 'C13/inspect-full' + toks.get('full', '?') + '-differs-from-verifying-scan'
     if pid == 'C07':
-        if toks.get('kind') == 'size' and _cid_is_identity(toks.get('c', '')):
+        if toks.get('kind') == 'size' and _getsize_known(toks, I, S):
             return 'C07/getsize-identity-ignores-store-identity-option'
         return 'C07/' + fam + '-' + toks.get('kind', 'open') + '-differs-from-scan'
     if pid == 'C09':
@@ -176,7 +196,12 @@ def signature(pid, script, I, S):
         tr = toks.get('trace', '-').split(',')
         n, k = len(tr), int(toks.get('k', '0'))
         if toks.get('fin') == '1' and k in (n - 2, n - 1):
-            return 'C06/crash-after-index-written-before-header-valid'
+            it = dict(t.split('=', 1) for t in I.split()[1:] if '=' in t)
+            if it.get('open') == 'ok' and it.get('has') == '1' and it.get('only') == '0':
+                # the recorded finding: every acknowledged block is still there, but the scan ran on
+                # into the index bytes and the resumed store holds something that was never put
+                return 'C06/crash-after-index-written-before-header-valid'
+            return 'C06/crash-after-index-written-before-header-valid/open=%s,has=%s,only=%s' % (it.get('open'), it.get('has'), it.get('only'))
         idx = [i for i, x in enumerate(tr) if x.split(':')[-1] in ('8108', '8008')]
         if toks.get('fin') == '1' and idx and k > idx[-1]:
             return 'C06/crash-inside-index-write'
@@ -188,7 +213,7 @@ def signature(pid, script, I, S):
             return 'C12/file-bytes-differ-after-resumption'
         return 'C12/' + fam + '-result-differs-after-resumption'
     if pid in ('C04', 'C05', 'C01'):
-        if fam == 'size' and _cid_is_identity(toks.get('c', '')):
+        if fam == 'size' and _getsize_known(toks, I, S):
             return pid + '/getsize-identity-ignores-store-identity-option'
         if fam == 'file':
             return pid + '/file-bytes-differ-from-layout'
